@@ -7,6 +7,7 @@ import (
 	"regexp"
 	"sort"
 	"strings"
+	"unicode/utf8"
 
 	"github.com/rkosegi/yaml-toolkit/diff"
 	"github.com/rkosegi/yaml-toolkit/dom"
@@ -31,13 +32,13 @@ type c09Diff struct {
 
 func init() {
 	register(&Prop{ID: "C09", Run: c09Run,
-		Rule: "seq: a generated document (member names from a path-safe pool incl. the numerals '0','1') and 10–40 operation objects generated against the evolving document " +
+		Rule: "seq: a generated document (member names from a path-safe pool incl. the numerals '0','1'; a second pool holds arbitrary text: non-ASCII names, spaces, dots, '~' and '/', written into the pointer string with ~0/~1) and 10–40 operation objects generated against the evolving document " +
 			"(evolved with the Go reference interpreter): existing locations, neighbours (other member, index in range / one past / far past), children of leaves, deep non-existent locations, " +
 			"non-numeric and negative tokens against lists, missing from/value/path, unknown op, move onto itself / into own descendant / within one list, test with the present and with a near-miss value; " +
 			"values are arbitrary nodes. Applied one by one through patch.Do with a fresh OpObj built by patch.ParsePath (via=do) or through pipeline.PatchOp (via=pipeline); " +
 			"after every successful copy a probe edit is made inside the copy and the source is read back. diff: two documents, xform.DiffMod2PatchOp(diff.Diff(L,R)) applied to R. " +
 			"Non-trivial: at least one step succeeds and one fails, or a list is edited. distinct = distinct canonical case JSON.",
-		Assumptions: []string{"locations are non-root; tokens are non-empty over [A-Za-z0-9_-], not '-', and numerals are canonical or negative (01, +1, -0 excluded)",
+		Assumptions: []string{"locations are non-root; tokens are non-empty valid UTF-8 member names (any text; valueFrom locations stay over [A-Za-z0-9_-] because they travel as dotted property paths), not '-', not ending in an index group, and numerals are canonical or negative (01, +1, -0 excluded)",
 			"documents and values are built from builder nodes (dom.Builder / ListNode / LeafNode); scalars are NaN-free",
 			"each OpObj is used once (a value node placed by add/replace is not cloned by the implementation)"}})
 	evals["C09"] = c09Eval
@@ -48,8 +49,23 @@ func init() {
 
 var c09SafeTokRe = regexp.MustCompile(`^[A-Za-z0-9_-]+$`)
 
+// c09TokInScope: a reference token is ANY member name ("of any document"): non-ASCII text, spaces, dots, '~' and
+// '/' (escaped as ~0 / ~1 in the pointer string) are all inside the property.  Outside: the empty token and "-"
+// (the property's own exclusions), numerals that are neither canonical nor negative, names ending in an index
+// group (API invariant, D26), and "{{" (pipeline.PatchOp renders its path as a template first).
 func c09TokInScope(t string) bool {
-	return c09SafeTokRe.MatchString(t) && t != "-" && c10TokInDomain(t)
+	return t != "" && t != "-" && utf8.ValidString(t) && !strings.Contains(t, "{{") && c10TokInDomain(t)
+}
+
+// c09DottedInScope: a valueFrom location is handed to pipeline.PatchOp as a dotted property path (dom.Lookup), so
+// its tokens stay path-safe.
+func c09DottedInScope(p []string) bool {
+	for _, t := range p {
+		if !c09SafeTokRe.MatchString(t) {
+			return false
+		}
+	}
+	return c09PathInScope(p)
 }
 
 func c09PathInScope(p []string) bool {
@@ -69,7 +85,15 @@ func c09PathInScope(p []string) bool {
 
 func c09OpInScope(o c09Op) bool { return c09PathInScope(o.Path) && c09PathInScope(o.From) }
 
-func c09Pointer(toks []string) string { return "/" + strings.Join(toks, "/") }
+// c09Pointer writes a location as an RFC 6901 pointer STRING: '~' as ~0 and '/' as ~1 inside a token.  Every
+// pointer reaches the implementation in this form, through patch.ParsePath (or pipeline.PatchOp's own parsing).
+func c09Pointer(toks []string) string {
+	esc := make([]string, len(toks))
+	for i, t := range toks {
+		esc[i] = strings.ReplaceAll(strings.ReplaceAll(t, "~", "~0"), "/", "~1")
+	}
+	return "/" + strings.Join(esc, "/")
+}
 
 // ---------------------------------------------------------------- generation
 
@@ -79,6 +103,17 @@ func c09Gen() *DocGen {
 	g.MaxDepth = 4
 	g.PList = 0.5
 	g.PEmpty = 0.1
+	return g
+}
+
+// c09WideKeys: member names as documents in the wild have them — non-ASCII text (2-, 3- and 4-byte runes), spaces,
+// dots, and the two characters a pointer string has to escape — next to a few plain ones.
+var c09WideKeys = []string{"ü", "größe", "naïve", "ключ", "日本", "😀", "é~/", "a b", " ", "x.y", "a/b", "/", "~", "~0", "~1", "a~b", "m~/n", "0", "1", "a", "k1"}
+
+func c09WideGen() *DocGen {
+	g := c09Gen()
+	g.Keys = c09WideKeys
+	g.MaxWidth = 5
 	return g
 }
 
@@ -282,7 +317,7 @@ func c09GenSeq(r *rand.Rand, g *DocGen, n int, valueFrom bool) c09Seq {
 			}
 			o.Value = nil
 		}
-		if !c09OpInScope(o) || !c09PathInScope(o.ValueFrom) {
+		if !c09OpInScope(o) || !c09DottedInScope(o.ValueFrom) {
 			continue
 		}
 		ops = append(ops, o)
@@ -340,6 +375,23 @@ func c09Run(c *Ctx) {
 	for i := 0; i < c.N(200); i++ {
 		c.Tick()
 		s := c09GenSeq(r, gp, 6+r.Intn(10), true)
+		s.Via = "pipeline"
+		c.Do("seq", s)
+	}
+	// member names that are arbitrary text: every location is written as a pointer string and parsed by the
+	// implementation (patch.ParsePath; pipeline.PatchOp parses path and from itself)
+	gw := c09WideGen()
+	for i := 0; i < c.N(350); i++ {
+		c.Tick()
+		c.Dist("seq:names-any-text")
+		c.Do("seq", c09GenSeq(r, gw, 10+r.Intn(21), false))
+	}
+	gwp := c09WideGen()
+	gwp.Types, gwp.PNull, gwp.Strings = gp.Types, gp.PNull, gp.Strings
+	for i := 0; i < c.N(70); i++ {
+		c.Tick()
+		c.Dist("seq:names-any-text")
+		s := c09GenSeq(r, gwp, 6+r.Intn(10), true)
 		s.Via = "pipeline"
 		c.Do("seq", s)
 	}
@@ -609,7 +661,7 @@ func c09Eval(c *Ctx, kind string, raw []byte) {
 			}
 			ops := make([]c09Op, 0, len(k.Ops))
 			for _, o := range k.Ops {
-				if o.Path == nil || !c09OpInScope(o) || !c09PathInScope(o.ValueFrom) {
+				if o.Path == nil || !c09OpInScope(o) || !c09DottedInScope(o.ValueFrom) {
 					continue // PatchOp cannot express an absent path ("" is the root)
 				}
 				if o.ValueFrom != nil {
